@@ -493,7 +493,7 @@ func VerifHarness_C20_view() {
 
 // ---------- H2: SetIndex of an in-memory index, then the caller keeps editing it ----------
 
-// The cache is cold, or warm with another index. The caller stores an
+// The cache is cold, or (WARM=1) warm with another index. The caller stores an
 // in-memory index (entries possibly out of order; optionally carrying a
 // cached tree, an (empty) resolve-undo or an end-of-index-entry extension, as
 // an index that was read from a git-written file does; optionally one entry
@@ -504,7 +504,7 @@ func VerifHarness_C20_set() {
 	c20Clock = 0
 	w := c20NewWorld(c20Skip())
 	n := verifrt.Range(1, verifrt.Param("N"))
-	if verifrt.Range(0, 1) == 1 {
+	if verifrt.Param("WARM") == 1 && verifrt.Range(0, 1) == 1 {
 		w.ext(c20Bytes(2, c20Entries(1), nil, w.skip), false)
 		w.read()
 	}
@@ -714,7 +714,7 @@ func VerifHarness_C20_failset() {
 func VerifHarness_C20_sequence() {
 	c20Clock = 0
 	w := c20NewWorld(c20Skip())
-	w.ext(c20Bytes(2, c20Entries(verifrt.Range(1, 2)), nil, w.skip), false)
+	w.ext(c20Bytes(2, c20Entries(verifrt.Range(1, verifrt.Param("N"))), nil, w.skip), false)
 	v := w.read() // the client's value: the latest successful read, possibly edited
 	steps := verifrt.Param("K")
 	for j := 0; j < steps; j++ {
